@@ -62,3 +62,15 @@ func (t *Tunnel) Read() (pt int, size int, pkt []byte, err error) {
 
 	return pt, size, pkt, err
 }
+
+// Close releases what the tunnel holds besides the inbound transport: the
+// connection to the remote desktop server (which also ends the relay goroutine
+// reading from it) and the outgoing transport.
+func (t *Tunnel) Close() {
+	if t.rwc != nil {
+		t.rwc.Close()
+	}
+	if t.transportOut != nil {
+		t.transportOut.Close()
+	}
+}
